@@ -699,7 +699,7 @@ def main():
             v["kind"] = "oracle"
             v["detail"] = "the container writer could not be started on a valid schema and metadata | " + v["detail"]
         elif v.get("stream") in ("de-valid", "de-canon") and rt[:1] == ["err"] and split_out(v["model"])[0].startswith("ok ") \
-                and split_out(v["model"])[1].startswith("ok"):
+                and not split_out(v["model"])[1].startswith("VIOLATION"):
             v["kind"] = "oracle"
             v["detail"] = "a valid encoding, which the target's entry points accept (model outcome Ok, oracle passed), was rejected | " + v["detail"]
         elif v["case"].startswith("reuse "):
